@@ -1500,4 +1500,25 @@ pub mod verif_hooks {
 		};
 		(entry.confirmation_threshold(), entry.has_reached_confirmation_threshold(best_height))
 	}
+
+	/// Every outpoint the handler has a claim for: (outpoint, counterparty-spendable height of its package,
+	/// true if the package still waits for its locktime / false if a claim is being pursued already).
+	pub fn tracked_claims<ChannelSigner: EcdsaChannelSigner>(
+		h: &OnchainTxHandler<ChannelSigner>,
+	) -> Vec<(BitcoinOutPoint, u32, bool)> {
+		let mut res = Vec::new();
+		for pkg in h.pending_claim_requests.values() {
+			for o in pkg.outpoints() {
+				res.push((*o, crate::chain::package::verif_hooks::counterparty_spendable_height(pkg), false));
+			}
+		}
+		for pkgs in h.locktimed_packages.values() {
+			for pkg in pkgs.iter() {
+				for o in pkg.outpoints() {
+					res.push((*o, crate::chain::package::verif_hooks::counterparty_spendable_height(pkg), true));
+				}
+			}
+		}
+		res
+	}
 }
